@@ -4,6 +4,7 @@
 //   harness replay <Cxx> --case FILE --out DIR
 //   harness htmlvocab
 //   harness encodings
+//   harness filters
 package main
 
 import (
@@ -12,10 +13,15 @@ import (
 	"fmt"
 	"os"
 
+	"bytes"
+	"compress/zlib"
+
+	"github.com/tsawler/tabula/core"
 	"github.com/tsawler/tabula/font"
 	"github.com/tsawler/tabula/htmldoc"
 
 	"verifharness/hx"
+	"verifharness/writers"
 
 	_ "verifharness/c01"
 	_ "verifharness/c02"
@@ -79,6 +85,12 @@ func main() {
 		fmt.Println(string(b))
 		return
 	}
+	if len(os.Args) == 2 && os.Args[1] == "filters" {
+		// what the built package does with each filter name, for extract (fallback source
+		// of Gen/FilterTable.lean when the name dispatch is not a switch it can read)
+		fmt.Println(filterBehaviour())
+		return
+	}
 	if len(os.Args) < 3 {
 		fmt.Fprintln(os.Stderr, "usage: harness run|replay <Cxx> [flags]")
 		os.Exit(2)
@@ -136,4 +148,78 @@ func main() {
 		}
 		fmt.Println("replay: no failure reproduced")
 	}
+}
+
+// filterBehaviour classifies every candidate filter name by what Stream.Decode does with it:
+// the decoder whose encoding of a probe it undoes, "data" (input returned as it is), "nil"
+// (an error whatever the data), "other" (anything else, e.g. CCITT). Candidates: the names and
+// abbreviations of ISO 32000-1 Table 6 / Table 93 in the order of the specification, then
+// near-misses that must not be accepted.
+func filterBehaviour() string {
+	probe := []byte("probe \x00\xff data, long enough to be told apart: 0123456789 0123456789")
+	var zb bytes.Buffer
+	zw := zlib.NewWriter(&zb)
+	zw.Write(probe)
+	zw.Close()
+	enc := map[string][]byte{
+		"filters.FlateDecode":    zb.Bytes(),
+		"filters.ASCIIHexDecode": writers.HexEncode(probe, 0, true),
+		"filters.ASCII85Decode":  writers.A85Encode(probe, 0, false),
+	}
+	order := []string{"filters.FlateDecode", "filters.ASCIIHexDecode", "filters.ASCII85Decode"}
+	names := []string{"FlateDecode", "Fl", "ASCIIHexDecode", "AHx", "ASCII85Decode", "A85", "LZWDecode", "LZW",
+		"RunLengthDecode", "RL", "CCITTFaxDecode", "CCF", "JBIG2Decode", "DCTDecode", "DCT", "JPXDecode", "Crypt",
+		"flatedecode", "FL", "Flate", "Deflate", "AHX", "ahx", "ASCIIHex", "a85", "ASCII85", "Hex", ""}
+	decode := func(name string, data []byte) (out []byte, err error) {
+		defer func() {
+			if r := recover(); r != nil {
+				err = fmt.Errorf("panic: %v", r)
+			}
+		}()
+		st := &core.Stream{Dict: core.Dict{"Filter": core.Name(name)}, Data: data}
+		return st.Decode()
+	}
+	type row struct {
+		Names []string `json:"names"`
+		Class string   `json:"class"`
+	}
+	var rows []row
+	for _, n := range names {
+		class := ""
+		for _, k := range order {
+			if out, err := decode(n, enc[k]); err == nil && bytes.Equal(out, probe) {
+				class = k
+				break
+			}
+		}
+		if class == "" {
+			allErr, allSame := true, true
+			for _, k := range order {
+				out, err := decode(n, enc[k])
+				if err == nil {
+					allErr = false
+					if !bytes.Equal(out, enc[k]) {
+						allSame = false
+					}
+				} else {
+					allSame = false
+				}
+			}
+			switch {
+			case allSame:
+				class = "data"
+			case allErr:
+				class = "nil"
+			default:
+				class = "other"
+			}
+		}
+		if len(rows) > 0 && rows[len(rows)-1].Class == class && class != "nil" && class != "other" && class != "data" {
+			rows[len(rows)-1].Names = append(rows[len(rows)-1].Names, n)
+		} else {
+			rows = append(rows, row{[]string{n}, class})
+		}
+	}
+	b, _ := json.Marshal(map[string]interface{}{"rows": rows})
+	return string(b)
 }
